@@ -100,7 +100,8 @@ SaBegin(e) == /\ phase = "live" /\ H(tid).blocks[e.b].async /\ e.b \in started /
               /\ sast' = [sast EXCEPT ![e.b] = "running"] /\ sabeg' = [sabeg EXCEPT ![e.b] = e.t]
               /\ UNCHANGED <<simset, err, supf, started, failedstart, stopcnt, stopt0, phase, doomed, sdrun, sdwant>>
 (* blocking (not awaiting) code of the clean-up routines of this run: a timeout cannot    *)
-(* interrupt it, it only takes effect when the loop gets control again                   *)
+(* interrupt it, it only takes effect when the loop gets control again; plus the time     *)
+(* cancelled routines take to wind up                                                     *)
 Busy == H(tid).busy
 SaEnd(e) == /\ sast[e.b] = "running" /\ sast' = [sast EXCEPT ![e.b] = "done"]
             /\ e.t <= sabeg[e.b] + MaxTmo + Busy                                      \* bounded by the (largest) stop_timeout
@@ -110,7 +111,8 @@ Finished(e) == /\ phase = "live" /\ phase' = "finished"
                   ELSE e.exc = err /\ e.errc = err /\ UNCHANGED err  \* the first error is the one reported
                /\ \A b \in B : stopcnt[b] = (IF b \in started THEN 1 ELSE 0)
                /\ \A b \in sdwant : sast[b] \in {"no", "done"} => b \in sdrun     \* stop_data was delivered
-               /\ \A b \in B : sast[b] # "running" \/ e.t >= sabeg[b] + H(tid).blocks[b].tmo
+               /\ \A b \in B : sast[b] # "running"          \* every clean-up routine has ended (a timed-out
+                                                            \* one was cancelled AND awaited)
                /\ (stopt0 # NONE => e.t <= stopt0 + MaxTmo + Busy)
                /\ UNCHANGED <<simset, supf, started, failedstart, stopcnt, sast, sabeg, stopt0, doomed, sdrun, sdwant>>
 RunRes(e) == /\ phase = "finished"
